@@ -830,7 +830,11 @@ const NAMED_THINGS: [&str; 3] = [
 
 /// programs whose parameters are written with `Self`, generic parameters, function types: a hover on the
 /// parameter's name in the parameter list says what a hover on its use in the body says
-const PARAMETER_PROGRAMS: [&str; 3] = [
+const PARAMETER_PROGRAMS: [&str; 5] = [
+    // the types are spelled unlike the way the compiler prints them: odd spacing, Self inside another type, nested parentheses
+    "struct Pq { a: int32 }\nimpl Pq { fn merge(self: Self, others: Vec[Self], k : ( int32 ,bool ), cell: Ref[ Self ]) -> int32 { let o = others; let kk = k; let c = cell; self.a + kk.0 } fn twin(self: Pq, pair: (Self, Self)) -> int32 { let p = pair; self.a } }\nfn spaced(a :int32 , b: ( string , ( bool,int8 ) ), f: ( int32 )->int32) -> int32 { let x = a; let y = b; let g = f; x }\nfn main() {\n    let p = Pq { a: 1 };\n    let v: Vec[Pq] = vec_new();\n    string_println(int32_to_string(p.merge(v, (1, true), ref(p)) + p.twin((p, p)) + spaced(1, (\"s\", (true, 1i8)), |q: int32| q)));\n}\n",
+    // generic parameters and closures with spelled-out types
+    "struct Bq[T] { v: T }\nimpl[T] Bq[T] { fn both(self: Self, other: Bq[ T ], items: Vec[ Bq[T] ]) -> T { let o = other; let i = items; self.v } }\nfn main() {\n    let b = Bq { v: 1 };\n    let l: Vec[Bq[int32]] = vec_new();\n    let c = |m : ( int32 ,int32 ), n: Bq[ int32 ]| { let mm = m; let nn = n; mm.0 };\n    string_println(int32_to_string(b.both(b, l) + c((1, 2), b)));\n}\n",
     "trait Show { fn show(Self) -> string; fn twice(Self, int32) -> string; }\nstruct Wq { k: int32 }\nimpl Show for int32 { fn show(self: Self) -> string { int32_to_string(self) } fn twice(self: Self, times: int32) -> string { int32_to_string(self * times) } }\nimpl Show for Wq { fn show(self: Self) -> string { int32_to_string(self.k) } fn twice(self: Wq, times: int32) -> string { int32_to_string(self.k * times) } }\nimpl Wq { fn get(self: Self) -> int32 { self.k } fn add(self: Self, more: int32) -> Wq { Wq { k: self.k + more } } }\nfn main() {\n    let w = Wq { k: 2 };\n    string_println(Show::show(3) + Show::twice(w, 2) + int32_to_string(Wq::get(w.add(1))))\n}\n",
     "struct Bx[T] { v: T }\nimpl[T] Bx[T] { fn take(self: Self) -> T { self.v } fn put(self: Bx[T], item: T) -> Bx[T] { Bx { v: item } } }\nfn first[A, B](left: A, right: B) -> A { let unused = right; left }\nfn apply(step: (int32) -> int32, start: int32) -> int32 { step(start) }\nfn inc(n: int32) -> int32 { n + 1 }\nfn main() {\n    let b = Bx { v: 1 };\n    string_println(int32_to_string(Bx::take(b.put(5)) + first(1, \"s\") + apply(inc, 2)))\n}\n",
     "enum Opt[T] { Non, Som(T) }\nimpl[T] Opt[T] { fn or(self: Self, other: T) -> T { match self { Opt::Som(held) => held, Opt::Non => other } } }\nfn pair(both: (int32, string), cell: Ref[bool], list: Vec[int8], grid: [int32; 2]) -> int32 { let b = both; let c = cell; let l = list; let g = grid; b.0 }\nfn main() {\n    let o: Opt[int32] = Opt::Som(1);\n    string_println(int32_to_string(o.or(2) + pair((1, \"s\"), ref(true), vec_new(), [1, 2])))\n}\n",
